@@ -434,6 +434,11 @@ class Watcher(object):
 
         process = self.processes.pop(pid)
 
+        # its pipes are closed below: unregister them first, the loop may
+        # not have seen their EOF yet and the descriptor numbers get reused
+        if self.stream_redirector:
+            self.stream_redirector.remove_redirections(process)
+
         timeout = 0.001
 
         while status is None:
